@@ -27,9 +27,9 @@ FUNCTIONS = ["wannierberri.calculators.static.Ohmic_FermiSea/Ohmic_FermiSurf, Be
              "wannierberri.formula.elementary.InvMass, DerWln, DerDcov, Dcov, Eavln and the other building blocks they pull in",
              "wannierberri.formula.formula.Formula_ln.trace, Matrix_ln, Matrix_GenDer_ln, FormulaProduct",
              "wannierberri.data_K.data_K.Data_K.covariant, D_H, Dcov, dEig_inv (at k), get_A_H", "wannierberri.result.EnergyResult.mul_array/__sub__/__mul__"]
-BOUNDS = dict(quick=dict(nb="2", groups="each non-degenerate band as its own group (lower, upper)", variants="default switches (external terms on) and external_terms=False",
+BOUNDS = dict(quick=dict(nb="2 (plus two nb=3 cases: Berry dipole middle band, spin gyrotropic top band)", groups="each non-degenerate band as its own group (lower, upper)", variants="default switches (external terms on) and external_terms=False",
                          directions="all three k-directions of the displacement, all tensor components", E_F="two values (the results are affine in E_F)"),
-              thorough=dict(nb="2 and 3 (3: internal terms only)", groups="every single band", variants="as quick", directions="as quick", E_F="as quick"))
+              thorough=dict(nb="2 and 3", groups="every single band", variants="as quick", directions="as quick", E_F="as quick"))
 EXPLANATION = ("The model at k is its Taylor jet: symbolic band energies, fully symbolic H-gauge matrices of the Hamiltonian derivatives (orders 1-3) and of every external-term "
                "matrix with its derivatives.  The jet at k + eps*e_a follows from first-order perturbation theory (U = 1 + eps*D, E + eps*diag dH); eps is a nilpotent atom "
                "(eps^2 -> 0 is a rewrite rule of the polynomial normal form), so running the REAL formula classes on the displaced jet is exact forward-mode differentiation: the "
@@ -47,7 +47,7 @@ ASSUMPTIONS = ["non-degenerate spectrum at k (gaps > 1 in the symbolic cases): f
                "the relations a real Wannier basis imposes between those matrices are not part of the jet - there each side is only checked against its own X",
                "NLDrude_Fermider2: the relation to the sea form needs two integrations by parts and the full symmetry of the integrated tensor; decided here: its integrand is v_a v_b v_c, "
                "its factor is half the sea factor, and InvMass_ab = d_a v_b (Ohmic pair)"]
-OUTSIDE = ["grids, smoothers, temperatures, convergence (the 'up to discretisation error' clause)", "nb > 3; nb = 3 with external terms", "tetrahedron weights",
+OUTSIDE = ["grids, smoothers, temperatures, convergence (the 'up to discretisation error' clause)", "nb > 3", "tetrahedron weights",
            "degenerate band groups under displacement", "Hall_classic and the Zeeman calculators (not in the property's list)"]
 STUBS = ["StaticCalculator.__call__ -> factor * (trace of self.Formula over one band group, additive / non-additive exactly as the real loop does), returned as a real EnergyResult",
          "displaced shell: dEig_inv = 1/dE - eps*dv/dE^2 (dual-number inverse, gaps assumed), delE_K = Re diag Xbar('Ham',1)", "np via module-level NpProxy (as C08)"]
@@ -412,8 +412,6 @@ def cases(tier, seed):
     for pair, (_, _, _, _, accepts) in PAIRS.items():
         for vl, kw in (VARIANTS if accepts else VARIANTS[:1]):
             for nb in ((2,) if q else (2, 3)):
-                if nb == 3 and accepts and not kw:
-                    continue      # nb=3 with external terms: outside
                 for group in groups_for(nb):
                     for a in range(3):
                         efs = (Fr(0), Fr(3, 8)) if pair == "GME_orb" else (Fr(0),)
@@ -424,6 +422,9 @@ def cases(tier, seed):
                                 continue      # same code as BerryDipole; the factor obligation is what it adds
                             out.append(Case(f"{pair} {vl} nb={nb} group={group} a={a} Ef={Ef}", case_pair, dict(pair=pair, nb=nb, kw=kw, a=a, Ef=Ef, group=group),
                                             timeout=900 if q else 3000))
+    if q:
+        out.append(Case("BerryDipole  nb=3 group=(1, 2) a=0 Ef=0", case_pair, dict(pair="BerryDipole", nb=3, kw={}, a=0, Ef=Fr(0), group=(1, 2)), timeout=900))
+        out.append(Case("GME_spin  nb=3 group=(2, 3) a=1 Ef=0", case_pair, dict(pair="GME_spin", nb=3, kw={}, a=1, Ef=Fr(0), group=(2, 3)), timeout=900))
     out.append(Case("NLDrude_Fermider2 nb=2", case_fermider2, dict(nb=2, group=(0, 1)), timeout=600))
     return out
 
